@@ -13,8 +13,8 @@
 //! contract; no behaviour may depend on hash iteration order (here: insertion order).
 pub use std::collections::VecDeque;
 
-pub const MAP_CAP: usize = 8;
-pub const LIST_CAP: usize = 5;
+pub const MAP_CAP: usize = 6;
+pub const LIST_CAP: usize = 4;
 
 pub mod linked_list {
     use super::LIST_CAP;
